@@ -318,19 +318,34 @@ def h_publish(eng, case):
     others = sym_vec(eng, 'local', ids[1:3], case['present'])
     stub = inst.ndn_app
     k = case['publications']
+    if case.get('suppressed'):
+        old = eng.int('old', 0, 2 ** 64 - 1)
+        eng.assume(old < others[ids[1]])
 
     async def main(loop):
         holder['loop'] = loop
-        inst.self_seq = seq0
+        inst.self_seq = 0
         inst.start(stub)
+        # let the start-up announcement (timer armed with 0) go out first: it must not be mistaken for the
+        # announcement of a publication; the symbolic state is installed afterwards (representation invariant:
+        # local[self] == own sequence number)
+        await vloop.sleep_until(loop, loop.at_ms(1))
+        inst.self_seq = seq0
+        inst.local_sv[inst.self_node_id] = seq0
         for nid, v in others.items():
             inst.local_sv[nid] = v
-        await asyncio.sleep(0)
+        if case.get('suppressed'):
+            # an outdated vector has just been heard: the instance is waiting out a suppression period
+            from ndn.encoding import Name, Component
+            comp = make_vector_component([(ids[1], old)])
+            inst.sync_handler(Name.from_str('/grp') + [comp, Component.from_bytes(bytes(32), 2)], None, None, {})
+            holder['state'] = inst.state
+            await asyncio.sleep(0)
         n0 = len(stub.sent)
         rets = []
         for j in range(k):
             rets.append(inst.new_data())
-            await vloop.sleep_until(loop, loop.at_ms(10 * (j + 1)))
+            await vloop.sleep_until(loop, loop.at_ms(1 + 10 * (j + 1)))
         n1 = len(stub.sent)
         inst.stop()
         await asyncio.sleep(0)
@@ -341,6 +356,8 @@ def h_publish(eng, case):
         eng.fail('publish-announces', 'deadlock')
         return
     n0, n1, rets = r
+    if case.get('suppressed'):
+        eng.check(holder.get('state') == SvsState.SyncSuppression, 'outdated-remote-starts-suppression')
     for j, ret in enumerate(rets):
         eng.check(ret == seq0 + j + 1, 'publish-increments-by-one')
     eng.check(inst.self_seq == seq0 + k, 'publish-increments-by-one')
@@ -471,6 +488,8 @@ def cases(tier, seed):
     for pres in ([0, 0], [1, 0], [1, 1]):
         for k in (1, 2):
             cs.append(('publish', {'present': pres, 'publications': k}, {'weight': 5}))
+            if pres[0] and (k == 1 or pres == [1, 0] or tier != 'quick'):
+                cs.append(('publish', {'present': pres, 'publications': k, 'suppressed': True}, {'weight': 15}))
     for n in (1, 2, 3) if tier != 'quick' else (1, 2):
         for rg in ('b', 'q'):
             cs.append(('period', {'vectors': n, 'range': rg}, {'weight': 30 * n, 'split_depth': 4}))
